@@ -323,7 +323,8 @@ class Condition(MatchCriteria):
         if len(params) == 1:
             # XTCE green book Figure 3-5 specifies if only one ParameterInstanceRef, it is the LHS of the operator
             left_param, use_calibrated_value = cls._parse_parameter_instance_ref(params[0])
-            right_value = element.find('Value').text
+            # an empty <Value/> element has no text: it is the empty literal
+            right_value = element.find('Value').text or ''
             return cls(left_param, operator, right_value=right_value,
                        left_use_calibrated_value=use_calibrated_value,
                        right_use_calibrated_value=False)
